@@ -24,8 +24,17 @@ def _universal_sort_key(*args):
     return tuple((str(type(x)), x) for x in args)
 
 
+def _fallback_sort_key(*args):
+    return tuple((str(type(x)), repr(x)) for x in args)
+
+
 def sorted_scope_items(scope_dict):
-    return sorted(scope_dict.items(), key=lambda pair: _universal_sort_key(*pair[0]))
+    items = list(scope_dict.items())
+    try:
+        return sorted(items, key=lambda pair: _universal_sort_key(*pair[0]))
+    except TypeError:
+        # Scope values need only be hashable and equatable; order unorderable ones by repr.
+        return sorted(items, key=lambda pair: _fallback_sort_key(*pair[0]))
 
 
 def get_scope_string(scope, *, add_zero_width_spaces=False):
